@@ -264,3 +264,84 @@ def paths(fb, fn, env, over, on_call):
                 walk(s, st, seen | {bid})
     walk(fn.entry, {}, frozenset())
     return out
+
+
+# ------------------------------------------------------------------------------------------------ symbolic linear forms
+
+class Sym(dict):
+    """linear form over named symbols: {symbol: coefficient}, constant under key 1"""
+
+    @staticmethod
+    def of(name, k=1):
+        return Sym({name: k})
+
+    def add(self, o, sign=1):
+        r = Sym(self)
+        for k, v in o.items():
+            r[k] = r.get(k, 0) + sign * v
+            if r[k] == 0:
+                del r[k]
+        return r
+
+    def subst(self, name, form):
+        if name not in self:
+            return Sym(self)
+        k = self[name]
+        r = Sym({a: b for a, b in self.items() if a != name})
+        for a, b in form.items():
+            r[a] = r.get(a, 0) + k * b
+            if r[a] == 0:
+                del r[a]
+        return r
+
+    def text(self):
+        if not self:
+            return '0'
+        out = []
+        for k in sorted(self, key=str):
+            v = self[k]
+            out.append(('%s' % k if v == 1 else '-%s' % k if v == -1 else '%d*%s' % (v, k)) if k != 1 else str(v))
+        return ' + '.join(out).replace('+ -', '- ')
+
+
+ACCESSORS = {'osmium::memory::Buffer::data': 'data', 'osmium::memory::Buffer::committed': 'committed',
+             'osmium::memory::Buffer::written': 'written', 'osmium::memory::Buffer::capacity': 'capacity'}
+FIELDS = {'m_data': 'data', 'm_committed': 'committed', 'm_written': 'written', 'm_capacity': 'capacity'}
+
+
+def sym_eval(fn, nid, who=lambda fn, recv: '', members=None):
+    """linear form of a pointer/size expression over data/committed/written of buffers; `who` names the buffer a receiver
+    denotes (so that m_data and data() of the same buffer unify); other leaves become their own symbols; raises Unknown"""
+    n = fn.nodes.get(nid)
+    if n is None:
+        raise Unknown('missing node')
+    k = n.get('k')
+    if k in ('wrap', 'icast', 'cast'):
+        return sym_eval(fn, n['sub'], who, members)
+    if 'cv' in n and not n.get('float'):
+        try:
+            v = int(n['cv'])
+            return Sym({1: v}) if v else Sym()
+        except ValueError:
+            pass
+    if k == 'binop' and n['op'] in ('+', '-'):
+        return sym_eval(fn, n['lhs'], who, members).add(sym_eval(fn, n['rhs'], who, members), 1 if n['op'] == '+' else -1)
+    if k == 'call' and n.get('q') in ACCESSORS and not n.get('args'):
+        return Sym.of('%s(%s)' % (ACCESSORS[n['q']], who(fn, n.get('recv'))))
+    if k == 'member' and n.get('field'):
+        if members and n['name'] in members:
+            return Sym.of(members[n['name']])
+        if n['name'] in FIELDS:
+            return Sym.of('%s(%s)' % (FIELDS[n['name']], who(fn, n.get('base'))))
+        return Sym.of('field:' + n['name'])
+    if k == 'var':
+        init = None
+        for m in fn.all_nodes():
+            if m.get('k') == 'decl':
+                for v in m.get('vars', []):
+                    if v['d'] == n['d'] and v.get('init') is not None and 'const' in (v.get('t') or ''):
+                        init = v['init']
+        if init is not None:
+            return sym_eval(fn, init, who, members)
+        return Sym.of('var:%s' % n.get('name'))
+    raise Unknown('%s node in a position expression' % k)
